@@ -142,6 +142,44 @@ def g_rules(p: Project, rep: Report):
                 roles.append(f"?{sorted(src)}")
         ok = roles == ["cli", "config", "defaults"]
         rep.check("G-R1", "merge_config:ChainMap(cli, config, defaults)", ok, f"sources are chained as {roles}: a lower-ranking source outranks a higher one" if not ok else "", gloc(p, c))
+    # ... and nothing picks a value from the individual sources in another order: `a.get(k) or b.get(k)` /
+    # `a[k] if .. else b[k]` over two sources of the chain must name the higher-ranking one first
+    role_of = {}
+    for n in chains:
+        c = [x for x in n.calls() if (dotted(x.func) or "").split(".")[-1] == "ChainMap"][0]
+        for a in c.args:
+            if isinstance(a, ast.Name):
+                src = _sources(a, n, reach)
+                if text(a) == "DEFAULTS" or src == {"global:DEFAULTS"}:
+                    role_of[a.id] = 2
+                elif f"param:{nsp}" in src and f"param:{cfgp}" not in src:
+                    role_of[a.id] = 0
+                elif f"param:{cfgp}" in src or "fn:read_config" in src:
+                    role_of[a.id] = 1
+    role_of.setdefault("DEFAULTS", 2)
+
+    def _src_read(e):
+        """(source name, key text) for <src>.get(k[, d]) / <src>[k]"""
+        if isinstance(e, ast.Call) and isinstance(e.func, ast.Attribute) and e.func.attr == "get" and isinstance(e.func.value, ast.Name) and e.func.value.id in role_of and e.args:
+            return e.func.value.id, text(e.args[0])
+        if isinstance(e, ast.Subscript) and isinstance(e.value, ast.Name) and e.value.id in role_of:
+            return e.value.id, text(e.slice)
+        return None
+
+    for x in ast.walk(mc):
+        seq = None
+        if isinstance(x, ast.BoolOp) and isinstance(x.op, ast.Or):
+            seq = [_src_read(v) for v in x.values]
+        elif isinstance(x, ast.IfExp):
+            seq = [_src_read(x.body), _src_read(x.orelse)]
+        if not seq or sum(1 for r_ in seq if r_) < 2:
+            continue
+        reads_ = [r_ for r_ in seq if r_]
+        if len({k_ for _s, k_ in reads_}) != 1:
+            continue
+        ranks = [role_of[s_] for s_, _k in reads_]
+        ok = ranks == sorted(ranks)
+        rep.check("G-R1", f"merge_config:picks:{reads_[0][1]}:in-rank-order", ok, f"`{text(x)[:70]}` takes {reads_[0][1]} from {reads_[0][0]} before {reads_[1][0]}: the lower-ranking source wins whenever it has a value, so a value given on the command line does not override the saved one" if not ok else "", gloc(p, x))
     # the OFX Home layer is consulted whenever a higher source names an institution id - whatever else is known
     from . import paths as _PT
 
@@ -488,6 +526,44 @@ def g_rules(p: Project, rep: Report):
         removals = [it for it in lv.items if _removes(it.node)]
         if stores_:
             rep.check("G-R7", "mk_server_cfg:skipped-options-are-cleared", bool(removals), "an option whose value equals what the lower sources yield is skipped, but a different value saved for it earlier stays in the user's section: after `--version 203 --write` over a stored `version = 102` the next run uses 102 again - the saved settings are not the ones that were in effect" if not removals else "", gloc(p, stores_[0].node))
+    # "unset" is what NULL_ARGS lists - never mere falsiness: the persistable options include booleans (and integers),
+    # for which False / 0 is a setting like any other
+    bool_opts = sorted(k for k, v in defaults.items() if isinstance(v, bool) and any(k in (_module_const(p, t_) or ()) for t_ in ("configurable_srvr", "configurable_user")))
+    if bool_opts:
+        valnames = set()
+        for lv in loop_views(mk):
+            if text(lv.iter) in ("CONFIGURABLE.items()", "CONFIGURABLE", "CONFIGURABLE.keys()"):
+                for it in lv.items:
+                    for x in ast.walk(it.node):
+                        if isinstance(x, ast.Assign) and len(x.targets) == 1 and isinstance(x.targets[0], ast.Name) and isinstance(x.value, ast.Subscript) and text(x.value.value) == "args":
+                            valnames.add(x.targets[0].id)
+                        if isinstance(x, ast.Call) and isinstance(x.func, ast.Name):
+                            inner_ = next((f_ for f_ in ast.walk(mk) if isinstance(f_, ast.FunctionDef) and f_.name == x.func.id and f_ is not mk), None)
+                            if inner_ is not None:
+                                ps_ = [a_.arg for a_ in inner_.args.args]
+                                for i_, a_ in enumerate(x.args):
+                                    if isinstance(a_, ast.Name) and a_.id in valnames and i_ < len(ps_):
+                                        valnames.add(ps_[i_])
+        truthy = None
+        for x in ast.walk(mk):
+            tests = []
+            if isinstance(x, (ast.If, ast.IfExp, ast.While, ast.Assert)):
+                tests = [x.test]
+            elif isinstance(x, ast.comprehension):
+                tests = list(x.ifs)
+            for t_ in tests:
+                parts = [t_]
+                while parts:
+                    q_ = parts.pop()
+                    if isinstance(q_, ast.BoolOp):
+                        parts += q_.values
+                    elif isinstance(q_, ast.UnaryOp) and isinstance(q_.op, ast.Not):
+                        parts.append(q_.operand)
+                    elif isinstance(q_, ast.Call) and isinstance(q_.func, ast.Name) and q_.func.id == "bool" and len(q_.args) == 1:
+                        parts.append(q_.args[0])
+                    elif isinstance(q_, ast.Name) and q_.id in valnames:
+                        truthy = truthy or t_
+        rep.check("G-R7", "mk_server_cfg:unset-is-not-falsy", truthy is None, f"the option value is tested for truth (`{text(truthy)[:40] if truthy is not None else ''}`): an explicit False for {bool_opts} (or 0) counts as 'not given', so it is neither saved nor allowed to replace a saved true - the next run does not see the settings that were in effect" if truthy is not None else "", gloc(p, truthy if truthy is not None else mk))
     cmp_ok = None
     detail = ""
     for st in ast.walk(mk):
